@@ -240,11 +240,13 @@ TokStep(w1, e, w2, c) ==
   /\ (Committed(e, c, "increase_allowance") /\ sp \in Accts /\ m.spender \in Accts) =>
         LET old == t1.allow[sp][m.spender]
             carried == IF old.has /\ (~IsExpired(old.exp, w1) \/ m.expires.k # "none") THEN old.amt ELSE 0
-        IN LiveAllowance(t2.allow[sp][m.spender], w2) <= carried + m.amount
+        IN /\ LiveAllowance(t2.allow[sp][m.spender], w2) <= carried + m.amount
+           /\ (m.expires.k # "none" /\ t2.allow[sp][m.spender].has) => t2.allow[sp][m.spender].exp = m.expires   \* the owner's time limit is part of the grant
   /\ (Committed(e, c, "decrease_allowance") /\ sp \in Accts /\ m.spender \in Accts) =>
         LET old == t1.allow[sp][m.spender]
             carried == IF old.has /\ (~IsExpired(old.exp, w1) \/ m.expires.k # "none") THEN old.amt ELSE 0
-        IN LiveAllowance(t2.allow[sp][m.spender], w2) <= Max(carried - m.amount, 0)
+        IN /\ LiveAllowance(t2.allow[sp][m.spender], w2) <= Max(carried - m.amount, 0)
+           /\ (m.expires.k # "none" /\ t2.allow[sp][m.spender].has) => t2.allow[sp][m.spender].exp = m.expires
   /\ \A o \in Accts, s \in Accts :                                  \* allowances change only by their owner or by use
         (t2.allow[o][s] # t1.allow[o][s] /\ ~IsProbe(e)) =>
             e.ok /\ IsExecEv(e) /\ TopTx(e).c = c
